@@ -184,7 +184,7 @@ INFO['C02'] = {
     'bounds': 'per-layer obligations over the probe backend (uninterpreted function of the coordinate, call recorder): '
               'N and M independently in 1..4 (quick: 5 pairs, thorough: 16), coordinate scalars int/unsigned/size_t/float/double '
               'where the layer admits them; every coordinate value (NaN excluded), every configuration value; '
-              'composition for deeper stacks by induction over the stack (stated) plus fixed stacks of depth 3-5 checked directly',
+              'composition for deeper stacks by induction over the stack (stated) plus fixed stacks of depth 3-5 checked directly; pairwise adjacency over the REAL layers: each of clamp, backup, shuffle, covariant_cast, dereference, nearest_neighbour directly above each of strided, Morton (both variants), Hilbert, clamp, backup, shuffle, cast, dereference (each over strided<array>, 3x2 storage, symbolic contents/configuration) and constant: W<X>.at equals the definition of W applied to the view X itself gives of the same storage',
     'outside': 'N or M above 4; NaN coordinates; stacks deeper than 5 (covered only by the induction argument)',
     'cuts': 'probe backend = uninterpreted function per output component; equality of results is bit-for-bit',
     'assumptions': ['a layer that treats its backend as an uninterpreted function of the coordinate cannot depend on what lies beneath (compositionality, stated)'],
@@ -279,9 +279,26 @@ def units_C02(tier, seed):
     return U + more_C02(tier)
 
 
-def more_C02(tier):
-    """fixed stacks of depth 3-5 against the composed oracle"""
+ADJ_W = ['clamp', 'backup', 'shuffle', 'cast', 'deref', 'nn']
+ADJ_K = ['strided', 'mortonport', 'hilbert', 'clamp', 'backup', 'shuffle', 'cast', 'deref', 'constant', 'mortonpdep']
+
+
+def adjacency_units(tier, ws=None):
+    """wrapper W directly above every shipped layer kind K (array-backed, 3x2 storage): W<X>.at == definition_W applied to X's own view"""
     U = []
+    for w, wn in enumerate(ADJ_W):
+        if ws is not None and wn not in ws:
+            continue
+        for k, kn in enumerate(ADJ_K):
+            fl = ('rel', 'dbg') if (tier == 'thorough' or k in (0, 4)) and k != 9 else ('rel',)
+            U += unit(f'c02_adj_{wn}_over_{kn}', 'c02_adjacent.cpp', f'adj_h<{w},{k}>()', sites=[1, 2] if w == 1 else [1],
+                      extra=['-mbmi2'] if k == 9 else (), flavours=fl, diff=(k == 0), weight=5 if w == 5 else 1)
+    return U
+
+
+def more_C02(tier):
+    """fixed stacks of depth 3-5 against the composed oracle; pairwise adjacency over the real layers"""
+    U = adjacency_units(tier)
     U += unit('c02_stack_clamp_backup_shuffle_clamp_probe', 'c02_stacks.cpp', 'stack_a()', sites=[1, 2, 3, 4], diff=True, weight=20,
               flavours=('rel', 'san'))
     U += unit('c02_stack_cast_backup_shuffle_strided_array', 'c02_stacks.cpp', 'stack_b()', sites=[1], diff=True, weight=10, flavours=('rel', 'dbg'))
@@ -290,7 +307,7 @@ def more_C02(tier):
 
 
 def units_C10(tier, seed):
-    return layer_units(tier, ['clamp']) + more_C10(tier)
+    return layer_units(tier, ['clamp']) + more_C10(tier) + adjacency_units(tier, ['clamp'])
 
 
 def more_C10(tier):
@@ -311,7 +328,7 @@ def more_C10(tier):
 
 
 def units_C11(tier, seed):
-    return layer_units(tier, ['backup'])
+    return layer_units(tier, ['backup']) + adjacency_units(tier, ['backup'])
 
 
 def units_C04(tier, seed):
